@@ -194,7 +194,7 @@ impl Engine for C13 {
                 "under an injected allocation failure the transfer may fail with an error; ownership and use-after-free oracles are never relaxed",
             ],
             shrink: vec!["/ops"],
-            quick: (6000, 150),
+            quick: (30000, 150),
             thorough: (200000, 1100),
         }
     }
@@ -278,6 +278,11 @@ impl Engine for C13 {
             let vm = new_vm(parents)?;
             world.globals.push(vm[0].as_ref().unwrap().verif_global_heap());
             world.vms.push(vm);
+        }
+        if std::env::var("SIM_DEBUG").is_ok() {
+            for (v, vm) in world.vms.iter().enumerate() {
+                eprintln!("vm{} global heap {} threads {:?}", v, world.globals[v], vm.iter().map(|t| t.as_ref().map(|t| t.verif_heaps())).collect::<Vec<_>>());
+            }
         }
         run::set_gc(GcPolicy::from_json(&w["gc"]), true);
         let empty = Vec::new();
@@ -490,6 +495,12 @@ impl Engine for C13 {
                             *t = None;
                         }
                         run::count("drop_vm", 1);
+                        // every thread of this VM is gone: whoever still touches its global heap got
+                        // there through a copy made into another VM (recorded finding)
+                        let global = world.globals[v];
+                        run::with(|s| {
+                            s.tagged_heaps.insert(global, "cross-vm copy used after its source VM was dropped (the copy still points into the source VM's global heap)".to_string())
+                        });
                         log.push(format!("dropped vm{}", v));
                     }
                 }
